@@ -44,7 +44,11 @@ RULE = ("Base tree of 3-8 entries (files with 4-7 distinct lines, directories, "
         "(existing or new) is put on that path. One new file in three gets a "
         "URL-ish name (My%20Notes.txt, a%41b, 100%, x y, c#d, q?x, non-ASCII, "
         "...). "
-        "Precious = regular files on disk whose content differs from the basis "
+        "Not generated (trusted-base dirstate assertion, DESIGN 4.3): a "
+        "non-directory on a path that is a versioned directory in the basis - "
+        "model ops that would create one are skipped, unknown-file names "
+        "differ from every directory name, and a run-time guard skips (and "
+        "labels) any that would still arise. Precious = regular files on disk whose content differs from the basis "
         "text of their file id (or that are added / unknown), whose sha1 is not "
         "the recorded merge-modified hash and that were not created by the "
         "earlier merge. Non-trivial: >= 1 non-empty precious file inside the "
@@ -283,7 +287,7 @@ def gen_case(draw, fmt="2a", rm_unknown=False):
                      draw(st.integers(0, 9))]
                     for _ in range(draw(st.integers(0, 3)))]
     case["unknown"] = [[draw(st.integers(0, 30)),
-                        draw(st.sampled_from(["u1", "u2.txt", "x~", "new",
+                        draw(st.sampled_from(["u1", "u2.txt", "y~", "new",
                                               "ü", "a.THIS", "<backup>",
                                               "<backup>", "My%20Notes.txt",
                                               "a%41b", "100%", "c#d", "q?x"])),
@@ -337,7 +341,10 @@ def _commit(wt, fmt, rev_id):
     return bz.commit(wt, rev_id=rev_id)
 
 
-def _apply_late(root, case, created_by_merge):
+EXCLUDED = "+file-on-basis-directory-path-not-created"
+
+
+def _apply_late(root, case, created_by_merge, basis_dirs=(), skipped=None):
     files, _ = _files_on_disk(root)
     # helper files of the earlier merge are the merge's, not the user's
     names = sorted(p for p in files if p not in created_by_merge)
@@ -378,6 +385,15 @@ def _apply_late(root, case, created_by_merge):
             p = names[k % len(names)] + ".~1~"
         ap = os.path.join(root, p)
         if os.path.lexists(ap):
+            continue
+        if p in basis_dirs:
+            # A non-directory on a path that is a versioned directory in the
+            # basis (moved away or deleted in the tree) makes the dirstate's
+            # iter_changes(specific_files=...) - bzrformats, trusted base -
+            # fail with an internal AssertionError (lstat ... NotADirectory);
+            # DESIGN section 4.3: not generated, counted through the label.
+            if skipped is not None:
+                skipped.append(p)
             continue
         with open(ap, "wb") as f:
             f.write(content.encode("utf-8"))
@@ -534,7 +550,11 @@ def run(case, env):
         after_merge, _ = _files_on_disk(root)
         created_by_merge = {p: c for p, c in after_merge.items()
                             if p not in before_merge}
-    unknown_made = _apply_late(root, case, created_by_merge)
+    basis_dirs = {tm.path_of(base_model, f) for f in tm.dirs(base_model)
+                  if f != tm.ROOT_ID}
+    skipped = []
+    unknown_made = _apply_late(root, case, created_by_merge, basis_dirs,
+                               skipped)
     if case.get("shadow") and case.get("select"):
         # unknown files sitting on the first backup name of the selected paths
         wt = _open(root)
@@ -772,7 +792,10 @@ def run(case, env):
              "copies-before": n, "copies-after": have.get(content, 0),
              "after": sorted(after_files)})
     if any(precious[i]["content"] for i in footprint):
-        return ok(label + ("+prior-merge" if "prior" in case else ""))
+        return ok(label + ("+prior-merge" if "prior" in case else "") +
+                  (EXCLUDED if skipped else ""))
+    if skipped:
+        return ok("trivial" + EXCLUDED)
     return trivial()
 
 
